@@ -541,7 +541,10 @@ func c13case(c *runner.Ctx, i int) {
 			c.Add("ctx_cancelled", 1)
 		}
 		if len(arr) == 0 {
-			if !drops && classifyErr(execErr) != "no-connections" && classifyErr(execErr) != "conn-closed" {
+			if loadLike(execErr) {
+				// a starved machine: the driver's timeout expired before the request got anywhere
+				c.Inconclusive("c13-timeout", "the query reached no server: "+fmt.Sprint(execErr))
+			} else if !drops && classifyErr(execErr) != "no-connections" && classifyErr(execErr) != "conn-closed" {
 				fail("never-sent", "the query reached no server at all: "+fmt.Sprint(execErr))
 			}
 			continue
@@ -595,8 +598,10 @@ func c13case(c *runner.Ctx, i int) {
 			if len(arr) > 1+maxRetries {
 				fail("attempt-budget-exceeded", fmt.Sprintf("%d arrivals with a policy that allows %d retries", len(arr), maxRetries))
 			}
-			for x := 0; x+1 < len(arr); x++ {
-				if arr[x].kind == "ok" {
+			// (a scripted success that reaches the driver after its timeout is a timeout for the driver: judged on what
+			// the driver itself recorded for that attempt)
+			for x := 0; x+1 < len(arr) && len(att) == len(arr); x++ {
+				if arr[x].kind == "ok" && att[x].kind == "ok" {
 					fail("retried-after-success", fmt.Sprintf("attempt %d succeeded but another attempt followed", x))
 					break
 				}
